@@ -39,11 +39,17 @@ CONSTANTS WSel,       \* row of the weight table below
           Known,      \* discriminators tolerated by the invariants (classes listed as known findings)
           Replay,     \* vote kinds whose future-index messages the handler caches AND replays when the index starts:
                       \* {"Prevote", "Precommit"} since commit 1d1ac7a ({} before it); certificate votes are never cached
+          Skew,       \* how the handler labels a delivered vote: {"judged"} = by comparing with the voter's context (same / old index /
+                      \* future); with "same" also votes of ANOTHER index labelled msgSame (the handler judged against a context the
+                      \* voter has already left or not yet reached, or a cached vote released late) -- the voter drops those
+          MaxLost,    \* number of such mislabelled deliveries per behaviour
+          FutureJudged, \* FALSE: correctly labelled future votes are not generated (stage without a message handler)
           Mode, MaxOps
 
 \* weights: first the node itself, then the peers (sortition weight = stake in the fixture); T = committee size
 \* (ValidatorThreshold = CertValThreshold = total stake).  Row a: quorum 13 is hit exactly by 3+4+6 and 2+5+6, 3+4+5 is one short.
-Tables == [a |-> <<2, 3, 4, 5, 6>>, b |-> <<1, 2, 2, 3, 3>>, c |-> <<4, 1, 1, 1, 1>>]
+Tables == [a |-> <<2, 3, 4, 5, 6>>, b |-> <<1, 2, 2, 3, 3>>, c |-> <<4, 1, 1, 1, 1>>,
+           g |-> <<2, 2, 2>>]       \* T = 6: quorum 4 = own vote + one peer, certificate quorum 3 = two votes
 W == Tables[WSel]
 T == LET RECURSIVE S(_) S(n) == IF n = 0 THEN 0 ELSE W[n] + S(n - 1) IN S(Len(W))
 Peers == 1..(Len(W) - 1)
@@ -60,11 +66,13 @@ EmptyWrapper == [ first |-> [k \in K3 |-> [s \in 0..(Len(W) - 1) |-> Nil]],  \* 
 VARIABLES v,       \* the voter: i, step, pc, cd, cm, over, wr, out
           dl,      \* observable: [index][kind][peer] -> set of blocks delivered with a valid credential
           dln,     \* the same, restricted to votes delivered when their index was NOT in the node's future
+          df,      \* [index][kind][peer] -> the FIRST block delivered with a valid credential (or nil): discriminator only
           ownv,    \* observable: own votes <<index, kind, block>>
           flags,   \* property layer: failed clauses <<clause, discriminator>>
-          nmsg, hist
-vars == <<v, dl, dln, ownv, flags, nmsg, hist>>
-View == <<v, dl, dln, ownv, flags, nmsg>>
+          nmsg, nlost, hist
+vars == <<v, dl, dln, df, ownv, flags, nmsg, nlost, hist>>
+View == <<v, dl, dln, df, ownv, flags, nmsg, nlost>>
+ViewV == <<v, dl, dln, df, ownv, flags, nlost>>     \* mode GV: a delivery that changes nothing is not a new state
 
 Sum(S) == LET RECURSIVE F(_) F(X) == IF X = {} THEN 0 ELSE LET x == CHOOSE y \in X : TRUE IN Wt(x) + F(X \ {x}) IN F(S)
 
@@ -122,6 +130,9 @@ Recv(x, s, k, b, ii, cred) ==
                 THEN [x1 EXCEPT !.out = Append(@, [t |-> "U", i |-> ii, b |-> b, pre |-> Stored(r.w, "Precommit", b), inv |-> r.w.inv])]
                 ELSE x1
 
+\* processVoteMsg :515-519: a vote labelled msgSame whose (round, index) is not the voter's is dropped
+RecvAs(x, s, k, b, ii, cred, as) == IF as = "same" /\ ii # x.i THEN x ELSE Recv(x, s, k, b, ii, cred)
+
 \* processCachedMsgs at the start of index x.i: the cached prevotes, then the cached precommits, each as a msgSame vote
 RECURSIVE ReplaySeq(_, _)
 ReplaySeq(x, q) == IF q = <<>> THEN x ELSE ReplaySeq(Recv(x, Head(q).s, Head(q).k, Head(q).b, x.i, "ok"), Tail(q))
@@ -134,62 +145,78 @@ ReplayCached(x) == LET q == x.cache[x.i] IN
 DQ(d, o, ii, k, b) == Sum({ s \in Peers : d[ii][k][s] = {b} }) + (IF <<ii, k, b>> \in o THEN Wt(0) ELSE 0)
 Entitled(d, o, ii, k, b) == { s \in Peers : d[ii][k][s] = {b} } \cup (IF <<ii, k, b>> \in o THEN {0} ELSE {})
 
-\* Discriminator of a failed quorum clause: "equivocator_future_vote" when the quorum exists once the votes that were
-\* delivered while their index was still in the node's future AND that the node drops (kinds not in Replay: the
-\* certificate votes) are disregarded, "no_quorum" otherwise.
-Disc(strict, lenient) == IF strict THEN {} ELSE IF lenient THEN {"equivocator_future_vote"} ELSE {"no_quorum"}
-Flag(c, strict, lenient) == { <<c, x>> : x \in Disc(strict, lenient) }
+\* Discriminator of a failed quorum clause:
+\*  "equivocator_future_vote"   the quorum exists once the votes that were delivered while their index was still in the
+\*                              node's future AND that the node drops (kinds not in Replay: certificate votes) are disregarded
+\*  "equivocation_after_quorum" the quorum exists when every sender counts with its FIRST delivered vote: it was complete
+\*                              at some moment and a sender voted for a second block afterwards
+\*  "no_quorum"                 otherwise
+Disc(strict, lenient, firsts) == IF strict THEN {} ELSE IF lenient THEN {"equivocator_future_vote"}
+                                 ELSE IF firsts THEN {"equivocation_after_quorum"} ELSE {"no_quorum"}
+Flag(c, strict, lenient, firsts) == { <<c, x>> : x \in Disc(strict, lenient, firsts) }
+\* df as a "delivered" observable: exactly the first block of every sender
+AsSets(f) == [ii \in 1..MaxI |-> [k \in K3 |-> [s \in Peers |-> IF f[ii][k][s] = Nil THEN {} ELSE {f[ii][k][s]}]]]
 
 \* fold the outputs of one run, in order, into [o (own votes), f (flags)]
-RECURSIVE Check(_, _, _, _)
-Check(out, d, dn, acc) ==
+RECURSIVE Check(_, _, _, _, _)
+Check(out, d, dn, dfs, acc) ==
    IF out = <<>> THEN acc
    ELSE LET e == Head(out) IN
         IF e.t = "V" THEN
            LET bad == CASE e.k = "Precommit" -> Flag("PrecommitOnlyAfterPrevoteQuorum", DQ(d, acc.o, e.i, "Prevote", e.b) >= Q("Prevote"),
-                                                                                      DQ(dn, acc.o, e.i, "Prevote", e.b) >= Q("Prevote"))
+                                                                                      DQ(dn, acc.o, e.i, "Prevote", e.b) >= Q("Prevote"),
+                                                                                      DQ(dfs, acc.o, e.i, "Prevote", e.b) >= Q("Prevote"))
                         [] e.k = "Cert"      -> Flag("CertOnlyAfterPrecommitQuorum", DQ(d, acc.o, e.i, "Precommit", e.b) >= Q("Precommit"),
-                                                                                   DQ(dn, acc.o, e.i, "Precommit", e.b) >= Q("Precommit"))
+                                                                                   DQ(dn, acc.o, e.i, "Precommit", e.b) >= Q("Precommit"),
+                                                                                   DQ(dfs, acc.o, e.i, "Precommit", e.b) >= Q("Precommit"))
                         [] OTHER -> {}
-           IN Check(Tail(out), d, dn, [o |-> acc.o \cup {<<e.i, e.k, e.b>>}, f |-> acc.f \cup bad])
+           IN Check(Tail(out), d, dn, dfs, [o |-> acc.o \cup {<<e.i, e.k, e.b>>}, f |-> acc.f \cup bad])
         ELSE IF e.t = "C" THEN
            LET qs(x) == DQ(x, acc.o, e.i, "Precommit", e.b) >= Q("Precommit") /\ (CertRound => DQ(x, acc.o, e.i, "Cert", e.b) >= Q("Cert"))
                pk(x) == e.pre \subseteq Entitled(x, acc.o, e.i, "Precommit", e.b) /\ e.cert \subseteq Entitled(x, acc.o, e.i, "Cert", e.b)
                \* what every verifier computes from the packed sets (consensus.go verifyVotes)
                vf == Sum(e.pre \ { s \in e.pre : <<"Precommit", s>> \in e.inv }) >= Q("Precommit")
                      /\ (CertRound => Sum(e.cert) >= Q("Cert"))
-           IN Check(Tail(out), d, dn, [acc EXCEPT !.f = @ \cup Flag("CommitOnlyAfterQuorums", qs(d), qs(dn))
-                                                           \cup Flag("EquivocatorWeightless", pk(d), pk(dn))
-                                                           \cup Flag("CommitVerifies", vf, FALSE)])
-        ELSE Check(Tail(out), d, dn, acc)
+           IN Check(Tail(out), d, dn, dfs, [acc EXCEPT !.f = @ \cup Flag("CommitOnlyAfterQuorums", qs(d), qs(dn), qs(dfs))
+                                                                \cup Flag("EquivocatorWeightless", pk(d), pk(dn), pk(dfs))
+                                                                \cup Flag("CommitVerifies", vf, qs(dn), qs(dfs))])
+        ELSE Check(Tail(out), d, dn, dfs, acc)
 
 (***************************** actions *****************************)
 Tick(rec) == /\ (Mode = "G" => Len(hist) < MaxOps)
              /\ hist' = Append(hist, rec)
 
-Apply(x, d, dn) == LET c == Check(x.out, d, dn, [o |-> ownv, f |-> flags]) IN
-                   /\ v' = [x EXCEPT !.out = <<>>] /\ dl' = d /\ dln' = dn /\ ownv' = c.o /\ flags' = c.f
+ApplyF(x, d, dn, f) == LET c == Check(x.out, d, dn, AsSets(f), [o |-> ownv, f |-> flags]) IN
+                   /\ v' = [x EXCEPT !.out = <<>>] /\ dl' = d /\ dln' = dn /\ df' = f /\ ownv' = c.o /\ flags' = c.f
+Apply(x, d, dn) == ApplyF(x, d, dn, df)
 
 Step2 == \E best \in Blocks :
            /\ v.step < 2 /\ Tick([op |-> "Step", st |-> 2, best |-> best])
-           /\ Apply(OwnVote([v EXCEPT !.step = 2], "Prevote", best), dl, dln) /\ UNCHANGED nmsg
-Step4 == /\ v.step < 4 /\ Tick([op |-> "Step", st |-> 4, best |-> Nil])
-         /\ Apply([v EXCEPT !.step = 4], dl, dln) /\ UNCHANGED nmsg
+           /\ Apply(OwnVote([v EXCEPT !.step = 2], "Prevote", best), dl, dln) /\ UNCHANGED <<nmsg, nlost>>
+Step4 == /\ v.step < 4 /\ Mode # "GV"      \* the step has no effect on the counting part: not explored in mode GV
+         /\ Tick([op |-> "Step", st |-> 4, best |-> Nil])
+         /\ Apply([v EXCEPT !.step = 4], dl, dln) /\ UNCHANGED <<nmsg, nlost>>
 NextIdx == /\ v.i < MaxI /\ Tick([op |-> "NextIdx"])
            /\ Apply(ReplayCached([v EXCEPT !.i = @ + 1, !.step = 0, !.pc = FALSE, !.cd = FALSE, !.cm = FALSE, !.over = {}]), dl, dln)
-           /\ UNCHANGED nmsg
-Deliver == \E s \in Peers, k \in (IF CertRound THEN K3 ELSE K3 \ {"Cert"}), b \in Blocks, ii \in 1..MaxI, cred \in Creds :
+           /\ UNCHANGED <<nmsg, nlost>>
+Deliver == \E s \in Peers, k \in (IF CertRound THEN K3 ELSE K3 \ {"Cert"}), b \in Blocks, ii \in 1..MaxI, cred \in Creds, as \in Skew :
              /\ nmsg < MaxMsgs /\ nmsg' = nmsg + 1
-             /\ Tick([op |-> "Recv", s |-> s, k |-> k, b |-> b, i |-> ii, cred |-> cred])
-             /\ Apply(Recv(v, s, k, b, ii, cred),
-                      IF cred = "ok" THEN [dl EXCEPT ![ii][k][s] = @ \cup {b}] ELSE dl,
-                      IF cred = "ok" /\ (ii <= v.i \/ k \in Replay) THEN [dln EXCEPT ![ii][k][s] = @ \cup {b}] ELSE dln)
+             /\ (as = "same") => (ii # v.i /\ cred = "ok" /\ nlost < MaxLost)
+             /\ nlost' = IF as = "same" THEN nlost + 1 ELSE nlost
+             /\ (~FutureJudged) => (ii <= v.i \/ as = "same")
+             /\ Tick([op |-> "Recv", s |-> s, k |-> k, b |-> b, i |-> ii, cred |-> cred, as |-> as])
+             /\ LET lost == as = "same" /\ ii # v.i IN       \* dropped by the voter and not cached by anybody: a lost message
+                ApplyF(RecvAs(v, s, k, b, ii, cred, as),
+                      IF cred = "ok" /\ ~lost THEN [dl EXCEPT ![ii][k][s] = @ \cup {b}] ELSE dl,
+                      IF cred = "ok" /\ ~lost /\ (ii <= v.i \/ k \in Replay) THEN [dln EXCEPT ![ii][k][s] = @ \cup {b}] ELSE dln,
+                      IF cred = "ok" /\ ~lost /\ df[ii][k][s] = Nil THEN [df EXCEPT ![ii][k][s] = b] ELSE df)
 
 Init == /\ v = [i |-> 1, step |-> 0, pc |-> FALSE, cd |-> FALSE, cm |-> FALSE, over |-> {},
                 wr |-> [ii \in 1..MaxI |-> EmptyWrapper], cache |-> [ii \in 1..MaxI |-> <<>>], out |-> <<>>]
         /\ dl = [ii \in 1..MaxI |-> [k \in K3 |-> [s \in Peers |-> {}]]] /\ dln = dl
-        /\ ownv = {} /\ flags = {} /\ nmsg = 0
-        /\ hist = <<[op |-> "Cfg", cert |-> CertRound]>>
+        /\ df = [ii \in 1..MaxI |-> [k \in K3 |-> [s \in Peers |-> Nil]]]
+        /\ ownv = {} /\ flags = {} /\ nmsg = 0 /\ nlost = 0
+        /\ hist = <<[op |-> "Cfg", cert |-> CertRound, w |-> WSel]>>
 Next == Step2 \/ Step4 \/ NextIdx \/ Deliver
 Spec == Init /\ [][Next]_vars
 
@@ -202,4 +229,7 @@ EquivocatorWeightless           == NoFlag("EquivocatorWeightless")
 CommitVerifies                  == NoFlag("CommitVerifies")
 
 Leaf == (Mode = "G" /\ Len(hist) >= MaxOps) => PrintT("@@J " \o ToJson([kind |-> "B", h |-> hist]))
+\* Mode "GV" (used as an INVARIANT with VIEW View: evaluated once per distinct state): one shortest behaviour into every
+\* distinct design state that a delivered vote has just produced
+LeafV == (Mode = "GV" /\ hist[Len(hist)].op = "Recv") => PrintT("@@J " \o ToJson([kind |-> "B", h |-> hist]))
 =============================================================================
